@@ -309,8 +309,34 @@ def rule_defer_wrapper(ctx):
     prog = ctx.prog
     G = "<ebr_impl::guard::Guard as utils::Deferable>::defer_with_inner"
     O = "<std::option::Option<&ebr_impl::guard::Guard> as utils::Deferable>::defer_with_inner"
-    b, ps = _ret_paths(ctx, O)
     n = 0
+    if G not in prog.bodies and O not in prog.bodies:
+        # the trait is gone: whatever wraps defer_unchecked now is a helper introduced by a refactoring, read inlined at
+        # its call sites, where every hand-off is resolved by evaluating the closure that reaches defer_unchecked
+        # (rules_cw.resolve_deferred). What remains here is that such wrappers exist and do not run f themselves.
+        from .rules_cw import resolve_deferred
+        helpers = [h for h in prog.auto_inline() if any(c.target == "ebr_impl::guard::Guard::defer_unchecked"
+                                                        for (_, _, c) in prog.bodies[h].calls())]
+        r.instance("deferral wrappers are refactoring helpers read inlined: %s" % sorted(helpers), bool(helpers))
+        if not helpers:
+            r.violate("utils", "wrapper", "no function hands closures to Guard::defer_unchecked any more")
+        for h in helpers:
+            hb = prog.body(h)
+            for p in ctx.ex.paths(hb):
+                if p.exit[0] != "return":
+                    continue
+                du_ = [e for e in _calls(p) if e.target == "ebr_impl::guard::Guard::defer_unchecked"]
+                direct = [e for e in _calls(p) if "call_once" in (e.target or "") and not e.frame]
+                ok = len(du_) == 1 and not direct
+                n += 3
+                r.instance("%s defers its closure exactly once and does not run it" % h.split("::")[-1], ok)
+                if not ok:
+                    r.violate(h, "defer", "does not hand its closure to defer_unchecked exactly once (or runs it directly)",
+                              hb.loc(0))
+        ps = []
+        b = None
+    else:
+        b, ps = _ret_paths(ctx, O)
     for p in ps:
         c = [e for e in _calls(p) if e.target == G]
         direct = [e for e in _calls(p) if "call_once" in (e.target or "")]
@@ -325,7 +351,7 @@ def rule_defer_wrapper(ctx):
         if not ok:
             r.violate(O, "forward", "does not forward (ptr, f) to Guard::defer_with_inner with the given guard / a fresh cs() "
                       "(or runs f directly)", b.loc(0))
-    b, ps = _ret_paths(ctx, G)
+    b, ps = _ret_paths(ctx, G) if G in prog.bodies else (None, [])
     for p in ps:
         c = [e for e in _calls(p) if e.target == "ebr_impl::guard::Guard::defer_unchecked"]
         direct = [e for e in _calls(p) if "call_once" in (e.target or "")]
